@@ -71,35 +71,147 @@ Theorem finder_total :
 Proof. exact LambdaFinderProofs.finder_total. Qed.
 Print Assumptions finder_total.
 
-(* LIVENESS (partial).  Full statement wanted: every layout documented as supported is recovered
-   without error, [supported_layout toks k0 -> find ... = Found k0].  Proved for the following
-   inductive family (Model/LambdaFinderSpec.v: segment, segs_ok, end_ok, supported_layoutb):
-   the stream the scan settles on (after [earlier] streams that start with a bare `lambda` and make
-   it back up) is a sequence of call segments
+(* LIVENESS.  Full statement wanted: every layout documented as supported is recovered without
+   error, [supported_layout toks k0 -> find ... = Found k0].  It is proved for an inductive family of
+   *token streams* (Model/LambdaFinderSpec.v: segment, segs_ok, end_ok, supported_layoutb): the
+   stream the scan settles on (after [earlier] streams that start with a bare `lambda` and make it
+   back up; [more] = further streams, never read) is a sequence of call segments
         glue  NAME(f)  gap  `lambda`  body  stop        followed by [tail]
-   glue = anything without a `lambda` NAME / NEWLINE token (for the first segment: anything without
-   the keyword), gap = no NAME, no `,` `)`, no NEWLINE (e.g. `(`, NL, comments), body = the argument
-   (any tokens - strings, comments, nested lambdas, brackets - with no `,`/`)` at relative depth 0,
-   brackets balanced at its end), stop = `,` or `)`; only the last body may contain a line break,
+   glue = anything without a `lambda` NAME / NEWLINE token (for the first segment: anything at all
+   without the keyword - in particular the unbalanced remainder `e.b)).` of an argument that began
+   on an earlier row), gap = no NAME and no NEWLINE (`(`, NL, comments, even `,`), body = the
+   argument (any tokens - strings, comments, nested lambdas, brackets - with no `,`/`)` at relative
+   depth 0, balanced at its end), stop = `,` or `)`; only the last body may contain a line break,
    otherwise the rest of the logical line has no further `lambda`; CPython parses every segment's
    extent; exactly the passed segment g0 has (row L, caller, args).
-   This covers: one lambda per call (black-style one call per line, wrapped argument on its own
-   line), several calls on a line told apart by method name or by parameter names, multi-line
-   bodies, comments/strings containing brackets or the word lambda, inline-then-wrapped chains.
-   MISSING from the full statement: layouts where an *earlier* segment's argument spans lines
-   (the chain continuing on the last line of a multi-line argument is then found through a later
-   start row, i.e. a different stream decomposition, not described by one segment list), backslash
-   continuations across segments, lambdas that are not the first thing after `NAME(`, and the def
-   branch; and that the harness's "documented" labels imply [supported_layoutb] is checked by
-   evaluation on every generated case, not proved. *)
+   Covered: one lambda per call (black-style, wrapped argument on its own line), several calls on a
+   line told apart by method or parameter names, multi-line bodies, comments/strings with brackets
+   or the word lambda, inline-then-wrapped chains; (a) a chain continuing on the last row of an
+   earlier multi-line argument - read from that row the remainder of the argument is glue (Examples
+   tail_row_..., continuation_row_...); (b) backslash continuations - one logical line, the row
+   constraint tells the segments apart (Example backslash_...; the pinned commit raises there).
+   (c) a lambda that is not the first argument of its call is NOT recovered by the code (its nearest
+   NAME is not the caller): that is a proved refusal, [finder_uncalled_raises]; (d) the def branch:
+   [def_supported], [def_exact], [def_found_only_own_return] below.
+   [finder_layout_outcome] gives the outcome on EVERY segment layout (= the three filters applied to
+   the segments), of which supported / ambiguous / uncalled are corollaries.
+   STILL MISSING from the full statement: (1) the family is over token streams per start row; that a
+   *source text* of a given shape tokenizes (from each start row) to such a stream is CPython's
+   tokenizer and is checked by evaluation of the syntactic recogniser [recognisedb] on every
+   generated case, not proved; (2) lambdas whose nearest preceding NAME is separated from them by
+   another complete argument holding a NAME are outside the grammar (they raise); (3) layouts where
+   a tokenizer error token precedes the end of the scanned logical line. *)
 Theorem finder_supported_layouts_partial :
-  forall P L dsrc caller args earlier gs1 g0 gs2 tail,
+  forall P L dsrc caller args earlier more gs1 g0 gs2 tail,
     forallb (backs_up P) earlier = true ->
     supported_layoutb P L caller args gs1 g0 gs2 tail = true ->
-    find P (earlier ++ [layout_toks (gs1 ++ g0 :: gs2) tail]) L true dsrc (Some caller) args
+    find P (earlier ++ layout_toks (gs1 ++ g0 :: gs2) tail :: more) L true dsrc (Some caller) args
     = Found (List.length earlier) (seg_start g0 (List.length (flat_map seg_toks gs1))).
 Proof. exact supported_layouts_b. Qed.
 Print Assumptions finder_supported_layouts_partial.
+
+(* the outcome on every segment layout: the scan yields exactly the segments' lambdas, and the result
+   is the selection (row, caller name, parameter names; multiplicity) among them *)
+Theorem finder_layout_outcome :
+  forall P L dsrc caller args earlier more gs tail,
+    forallb (backs_up P) earlier = true ->
+    segs_ok true ["lambda"] gs = true ->
+    forallb (seg_parsed P) gs = true ->
+    end_ok gs tail = true ->
+    find P (earlier ++ layout_toks gs tail :: more) L true dsrc caller args
+    = select true L caller args (List.length earlier) (cands_from P gs 0).
+Proof. exact segment_layout_outcome. Qed.
+Print Assumptions finder_layout_outcome.
+
+(* exact form of "raises when ambiguous": two segments with the callable's row, caller and
+   parameter names => ValueError "Found multiple calls on same line" *)
+Theorem finder_ambiguous_layout_raises :
+  forall P L dsrc caller args earlier more gs1 g1 gs2 g2 gs3 tail,
+    forallb (backs_up P) earlier = true ->
+    segs_ok true ["lambda"] (gs1 ++ g1 :: gs2 ++ g2 :: gs3) = true ->
+    forallb (seg_parsed P) (gs1 ++ g1 :: gs2 ++ g2 :: gs3) = true ->
+    end_ok (gs1 ++ g1 :: gs2 ++ g2 :: gs3) tail = true ->
+    seg_matches P L caller args g1 = true ->
+    seg_matches P L caller args g2 = true ->
+    find P (earlier ++ layout_toks (gs1 ++ g1 :: gs2 ++ g2 :: gs3) tail :: more) L true dsrc (Some caller) args
+    = Err EMultiple.
+Proof. exact ambiguous_layout_raises. Qed.
+Print Assumptions finder_ambiguous_layout_raises.
+
+(* (c): no segment on the callable's row is preceded by the caller's name (lambda not the first
+   argument, passed by keyword, wrapped in a helper) => ValueError "Found no lambda in arguments to" *)
+Theorem finder_uncalled_raises :
+  forall P L dsrc caller args earlier more gs tail,
+    forallb (backs_up P) earlier = true ->
+    segs_ok true ["lambda"] gs = true ->
+    forallb (seg_parsed P) gs = true ->
+    end_ok gs tail = true ->
+    forallb (fun g => negb (Nat.eqb (g_lrow g) L && String.eqb (g_name g) caller)) gs = true ->
+    find P (earlier ++ layout_toks gs tail :: more) L true dsrc (Some caller) args = Err ENoLambda.
+Proof. exact uncalled_layout_raises. Qed.
+Print Assumptions finder_uncalled_raises.
+
+(* SYNTACTIC RECOGNISER.  tokens_till keeps three independent counters; on an argument whose brackets
+   are properly nested (a real bracket matcher: a stack, each closer matches the innermost opener) and
+   which has no `,` outside brackets, they behave as the matcher does: never all zero at a `,`/`)`
+   inside, all zero at the end.  So bracket *nesting* of the source (what "well_bracketed" means)
+   implies the counter condition the liveness theorem needs. *)
+Theorem nested_brackets_balanced :
+  forall body, nested_ok [] body = true -> body_balanced body = true.
+Proof. exact nested_ok_balanced. Qed.
+Print Assumptions nested_brackets_balanced.
+
+(* [recognisedb] = supported_layoutb with the counter condition replaced by bracket nesting: token
+   classes and nesting are syntactic, the remaining conjuncts are CPython's parse of each extent.
+   The harness cuts each generated case at the lambda extents reported by CPython's own parser
+   (ast end positions - independent of the model's scan) and evaluates [recognisedb]; this theorem
+   takes it from there to the result. *)
+Theorem finder_recognised_layouts :
+  forall P L dsrc caller args earlier more gs1 g0 gs2 tail,
+    forallb (backs_up P) earlier = true ->
+    recognisedb P L caller args gs1 g0 gs2 tail = true ->
+    find P (earlier ++ layout_toks (gs1 ++ g0 :: gs2) tail :: more) L true dsrc (Some caller) args
+    = Found (List.length earlier) (seg_start g0 (List.length (flat_map seg_toks gs1))).
+Proof.
+  intros P L dsrc caller args earlier more gs1 g0 gs2 tail He H.
+  exact (supported_layouts_b P L dsrc caller args earlier more gs1 g0 gs2 tail He
+           (recognised_supported P L caller args gs1 g0 gs2 tail H)).
+Qed.
+Print Assumptions finder_recognised_layouts.
+
+(* (d) THE DEF BRANCH.  A function passed by name: the first stream is searched for the first `def`
+   NAME ([def_scan]); nothing else of the neighbourhood takes part. *)
+Theorem def_exact :
+  forall P streams L dsrc caller args,
+    find P streams L false dsrc caller args
+    = match streams with
+      | [] => NeedStream 0
+      | ts :: _ => match def_scan ts with
+                   | ScDef => def_outcome dsrc
+                   | ScCrash e => Crash e
+                   | _ => Err ENoSource
+                   end
+      end.
+Proof. exact LambdaFinderLayouts.def_exact. Qed.
+Print Assumptions def_exact.
+
+(* liveness: the stream from the function's first line (its `def` or first decorator line) reaches a
+   `def` before any tokenizer error, and its own source is docstrings + one return => recorded *)
+Theorem def_supported :
+  forall P ts more L dsrc caller args,
+    def_layoutb ts dsrc = true -> find P (ts :: more) L false dsrc caller args = FoundDef.
+Proof. exact LambdaFinderLayouts.def_supported. Qed.
+Print Assumptions def_supported.
+
+(* safety: what is recorded for a function is built from that function's own source [dsrc] (the
+   object's inspect.getsource - CPython's, tied by the marker oracle), only when it is one return;
+   with [def_never_lambda] and [def_exact]: never a lambda token of the file, and no dependence on
+   P, the caller name, the parameter names or any later stream *)
+Theorem def_found_only_own_return :
+  forall P streams L dsrc caller args,
+    find P streams L false dsrc caller args = FoundDef -> one_return dsrc = true.
+Proof. exact LambdaFinderLayouts.def_found_only_own_return. Qed.
+Print Assumptions def_found_only_own_return.
 
 (* THE PINNED COMMIT IS REFUTED (finding F15): with the selection that loses the line constraint
    the safety statement fails on the token stream of
@@ -191,3 +303,56 @@ Proof. vm_compute. repeat split. Qed.
 Example total_hypotheses_met :
   forallb no_err_toks [wrap_s0; wrap_s1] = true /\ (forall x, exists a, P_names x = PArgs a).
 Proof. split; [vm_compute; reflexivity | intros x; eexists; reflexivity]. Qed.
+
+(* (a) the chain continues on the last row of a multi-line argument: read from that row *)
+Example tail_row_is_supported_layout :
+  layout_toks [tailrow_g1] tailrow_tail = tailrow_s0
+  /\ recognisedb P_names 2 "Select" ["e"] [] tailrow_g1 [] tailrow_tail = true
+  /\ find P_names [tailrow_s0] 2 true (DSBody []) (Some "Select") ["e"] = Found 0 9.
+Proof. vm_compute. repeat split. Qed.
+
+(* (a) ... and reached by backing up from a row that starts with `lambda` onto such a row *)
+Example continuation_row_is_supported_layout :
+  layout_toks [cont_g1] cont_tail = cont_s1 /\ forallb (backs_up P_names) [cont_s0] = true
+  /\ recognisedb P_names 3 "Select" ["e"] [] cont_g1 [] cont_tail = true
+  /\ find P_names [cont_s0; cont_s1] 3 true (DSBody []) (Some "Select") ["e"] = Found 1 10.
+Proof. vm_compute. repeat split. Qed.
+
+(* (b) backslash continuation: one logical line, two rows, equal names - the row tells them apart
+   (the pinned commit raises "multiple") *)
+Example backslash_is_supported_layout :
+  layout_toks [bslash_g1; bslash_g2] bslash_tail = bslash_s0
+  /\ recognisedb P_names 1 "Select" ["e"] [] bslash_g1 [bslash_g2] bslash_tail = true
+  /\ find P_names [bslash_s0] 1 true (DSBody []) (Some "Select") ["e"] = Found 0 6
+  /\ find_pinned P_names [bslash_s0] 1 true (DSBody []) (Some "Select") ["e"] = Err EMultiple.
+Proof. vm_compute. repeat split. Qed.
+
+(* (c) `ds.Select(x, lambda e: e.a)`: the hypotheses of finder_uncalled_raises hold; it raises *)
+Example non_first_argument_raises :
+  layout_toks [nonfirst_g1] nonfirst_tail = nonfirst_s0
+  /\ segs_ok true ["lambda"] [nonfirst_g1] = true /\ forallb (seg_parsed P_names) [nonfirst_g1] = true
+  /\ end_ok [nonfirst_g1] nonfirst_tail = true /\ g_name nonfirst_g1 = "x"
+  /\ find P_names [nonfirst_s0] 1 true (DSBody []) (Some "Select") ["e"] = Err ENoLambda.
+Proof. vm_compute. repeat split. Qed.
+
+(* exact ambiguity on the three-call line *)
+Example ambiguous_layout_hypotheses :
+  segs_ok true ["lambda"] ([] ++ amb_g1 :: [amb_g2] ++ amb_g3 :: []) = true
+  /\ seg_matches P_names 1 "Select" ["e"] amb_g1 = true /\ seg_matches P_names 1 "Select" ["e"] amb_g3 = true.
+Proof. vm_compute. repeat split. Qed.
+
+(* (d) a decorated one-line def with a docstring: read from the decorator row *)
+Example decorated_def_is_supported :
+  def_layoutb decodef_s0 (DSBody [SDoc; SReturn]) = true
+  /\ find P_names [decodef_s0] 1 false (DSBody [SDoc; SReturn]) (Some "Select") ["e"] = FoundDef
+  /\ def_layoutb decodef_s0 (DSBody [SOther; SReturn]) = false.
+Proof. vm_compute. repeat split. Qed.
+
+(* nesting vs counters on a body with all three bracket kinds, a string and a nested lambda *)
+Example nesting_example :
+  nested_ok [] [T 1 KOp "{"; T 1 KOther "'k'"; T 1 KOp ":"; T 1 KOp "["; T 1 KName "f"; T 1 KOp "(";
+                T 1 KName "lambda"; T 1 KName "q"; T 1 KOp ":"; T 1 KName "q"; T 1 KOp ","; T 1 KOther "2";
+                T 1 KOp ")"; T 1 KOp "]"; T 1 KOp "}"] = true
+  /\ nested_ok [] [T 1 KOp "("; T 1 KOp "["; T 1 KOp ")"; T 1 KOp "]"] = false
+  /\ body_balanced [T 1 KOp "("; T 1 KOp "["; T 1 KOp ")"; T 1 KOp "]"] = true.
+Proof. vm_compute. repeat split. Qed.
